@@ -164,6 +164,25 @@ def check(model, rep, tier):
            core.norm(l.iter) == prm + '._fields']
   rec_ok = rec_ok and len(loops) == 1 and not any(
       isinstance(x, (ast.Break, ast.Return)) for x in ast.walk(loops[0]))
+  if not rec_ok:
+    # the field table as one comprehension: {f: self.copy(getattr(n, f)) for f in
+    # n._fields if not f.startswith('__') and hasattr(n, f)}
+    for a_ in ast.walk(cp.node):
+      if isinstance(a_, ast.Assign) and isinstance(a_.value, ast.DictComp) and len(
+          a_.value.generators) == 1 and isinstance(a_.targets[0], ast.Name):
+        dc, gen_ = a_.value, a_.value.generators[0]
+        if not isinstance(gen_.target, ast.Name) or core.norm(gen_.iter) != prm + '._fields':
+          continue
+        t_ = gen_.target.id
+        conds_ = set()
+        for i_ in gen_.ifs:
+          for v_ in (i_.values if isinstance(i_, ast.BoolOp) and isinstance(
+              i_.op, ast.And) else [i_]):
+            conds_.add(core.norm(v_))
+        rec_ok = core.norm(dc.key) == t_ and core.norm(dc.value) == \
+            'self.copy(getattr(%s, %s))' % (prm, t_) and conds_ <= {
+                "not %s.startswith('__')" % t_, 'hasattr(%s, %s)' % (prm, t_)} and \
+            pat.has(cp.node, '_NEW_ = type(%s)(**%s)' % (prm, a_.targets[0].id)) is not None
   rep.check(comp_ok and rec_ok, 'TREE-COPY', '%s:rebuilds-recursively' % cp.site,
             'lists and tuples must be rebuilt element-wise and every node '
             'reconstructed from copies of all its fields', {}, line=cp.node.lineno)
@@ -355,8 +374,33 @@ def check(model, rep, tier):
             witness='for head, *tail in rows:  ->  (head, *ag__.ld(tail)) = itr')
   # expression kinds that hold a binding target while being evaluated themselves:
   # the override (Load, from the placeholder position) must not reach the target
+  # (a kind without a handler of its own is dispatched to generic_visit: an
+  # override of generic_visit that clears the override under
+  # `isinstance(node, <tuple of kinds>)` before it descends is the same barrier)
+  gv = ca.methods.get('generic_visit')
+  table_kinds = set()
+  if gv is not None:
+    gp = gv.params()[0]
+    gvv = gv.view()
+    for a_ in ast.walk(gvv):
+      if isinstance(a_, ast.Assign) and core.norm(a_.targets[0]) == OV and isinstance(
+          a_.value, ast.Constant) and a_.value.value is None:
+        ks_ = set()
+        for pol, tst in formula.path_condition(gvv, a_):
+          if pol == 'T' and isinstance(tst, ast.Call) and core.dotted(tst.func) == \
+              'isinstance' and len(tst.args) == 2 and core.norm(tst.args[0]) == gp:
+            ks_ |= {(core.dotted(k) or '?').split('.')[-1] for k in (
+                tst.args[1].elts if isinstance(tst.args[1], ast.Tuple) else [tst.args[1]])}
+        # the clearing statement precedes the descent
+        desc_ = [c for c in ast.walk(gvv) if isinstance(c, ast.Call) and 'generic_visit' in
+                 core.norm(c.func) and c.lineno > a_.lineno]
+        if desc_:
+          table_kinds |= ks_
   for kind, fld in (('NamedExpr', 'target'), ('comprehension', 'target')):
     h = ca.methods.get('visit_' + kind)
+    if h is None and kind in table_kinds:
+      rep.hold('TREE-CTX', '%s:ContextAdjuster:barrier(%s.%s)' % (TPL, kind, fld))
+      continue
     ok = h is not None
     if ok:
       hg = pycfg.CFG(h.node)
